@@ -71,6 +71,11 @@ def gen_h1(src, out):
     fb = re.search(r"\(\(unsigned char \*\)c->mem->ptr\)\[c->offset\]\s*<\s*(\d+)", h1)
     if not fb: problems.append("h1_recv_headers(): first-byte test not found")
     txt += "Definition FIRST_BYTE_MIN : N := %s%%N.\n" % (fb.group(1) if fb else "0")
+    lg = re.search(r"#\s*define\s+HTTP_LINGER_TIMEOUT\s+(\d+)", h1)
+    if not lg: problems.append("h1.c: HTTP_LINGER_TIMEOUT not found")
+    rel = re.search(r"if\s*\(\s*r->state\s*==\s*CON_STATE_CLOSE\s*\)\s*\{\s*if\s*\(\s*cur_ts\s*-\s*con->close_timeout_ts\s*>\s*HTTP_LINGER_TIMEOUT\s*\)\s*changed\s*=\s*1\s*;", h1)
+    txt += "Definition HTTP_LINGER_TIMEOUT : Z := %s%%Z.\n" % (lg.group(1) if lg else "0")
+    txt += "Definition lingering_close_is_released_by_the_sweep : bool := %s.\n" % ("true" if rel else "false")
     write_if_changed(os.path.join(out, "GenH1.v"), txt)
 
 
